@@ -11,7 +11,7 @@ from checks import _gov
 def run(ctx):
     q = ctx.quick
     summ, altsp = _gov.run_gov(ctx, "C33", "C33", "Governance_C33_gen_quick.cfg" if q else "Governance_C33_gen_thorough.cfg",
-                               nv=4 if q else 5, depth=3 if q else 4, cap=600 if q else 4000)
+                               nv=4 if q else 5, depth=3 if q else 4, cap=2000 if q else 8000)
     return ctx.finish(rule="P-EDGE: every (model state, action) edge of Governance.tla in mode C33 replayed on the real contracts "
                       "(one replay of the shortest history per state, storage snapshot/restore per edge); deviating real executions "
                       "and a bounded breadth-first exploration of the real contracts from each deviating state are judged by TLC "
